@@ -90,7 +90,7 @@ func (c *enumCtx) base(x Inst, op string) Ev {
 	cfg := jsonCfg(x)
 	return Ev{"fam": "enum", "kind": x.Kind(), "cfg": cfg, "op": op, "rs": 1, "timeout": false, "obsbad": false,
 		"p": pred{Name: "true"}, "mp": mapper{Name: "id"}, "res": []any{}, "ret": []any{}, "hasres": false,
-		"res_after": []any{}, "recv_after": []any{}}
+		"res_after": []any{}, "recv_after": []any{}, "refres": []any{}, "hasref": false}
 }
 
 // the receiver's iteration sequence as [index or key, value] pairs, read with a fresh iterator
@@ -250,6 +250,17 @@ func runIdxEnum[C any](c *enumCtx, get func(Inst) idxEnum[C]) {
 		if res != nil && !ci.Panic {
 			e["hasres"] = true
 			e["res"] = contentOf(res)
+			// reference: a fresh container of the same configuration, the mapped elements inserted in iteration order
+			ref := c.u.New()
+			for _, pr := range e["seq"].([][]int) {
+				switch t := ref.(type) {
+				case *seqInst:
+					t.l.Add(m.idx(pr[0], pr[1]))
+				case *setInst:
+					t.s.Add(m.idx(pr[0], pr[1]))
+				}
+			}
+			e["refres"], e["hasref"] = contentOf(ref), true
 			fpr := fullFP(x)
 			independence(e, x, res)
 			e["panic"], e["pmsg"], e["out"] = ci.Panic, ci.PMsg, ci.Out
@@ -340,6 +351,12 @@ func runKVEnum[C any](c *enumCtx, get func(Inst) kvEnum[C]) {
 		if res != nil && !ci.Panic {
 			e["hasres"] = true
 			e["res"] = contentOf(res)
+			ref := c.u.New().(*mapInst)
+			for _, pr := range e["seq"].([][]int) {
+				a, b := m.kv(pr[0], pr[1])
+				ref.c.Put(a, V(b))
+			}
+			e["refres"], e["hasref"] = contentOf(ref), true
 			fpr := fullFP(x)
 			independence(e, x, res)
 			e["panic"], e["pmsg"], e["out"] = ci.Panic, ci.PMsg, ci.Out
@@ -377,11 +394,13 @@ func jobEnum(j *jobCtx) {
 		case "arraylist", "singlylinkedlist", "doublylinkedlist":
 			us = []Universe{&seqUniverse{kind: k, vals: []int{1, 2, 3}, maxLen: pick(3, 4), argLen: 1, cmps: []string{"nat"}}}
 		case "treeset":
-			us = []Universe{&setUniverse{kind: k, cmp: "nat", n: pick(4, 5), argLen: 1}, &setUniverse{kind: k, cmp: "rev", n: pick(4, 5), argLen: 1}}
+			us = []Universe{&setUniverse{kind: k, cmp: "nat", n: pick(4, 5), argLen: 1}, &setUniverse{kind: k, cmp: "revx", n: pick(4, 5), argLen: 1},
+				&setUniverse{kind: k, cmp: "half", n: pick(4, 5), argLen: 1}}
 		case "linkedhashset":
 			us = []Universe{&setUniverse{kind: k, n: pick(3, 4), argLen: 1}}
 		case "treemap":
-			us = []Universe{&mapUniverse{kind: k, cmp: "nat", nk: pick(4, 5), ctr: ctr}, &mapUniverse{kind: k, cmp: "rev", nk: pick(4, 5), ctr: ctr}}
+			us = []Universe{&mapUniverse{kind: k, cmp: "nat", nk: pick(4, 5), ctr: ctr}, &mapUniverse{kind: k, cmp: "revx", nk: pick(4, 5), ctr: ctr},
+				&mapUniverse{kind: k, cmp: "half", nk: pick(4, 5), ctr: ctr}}
 		case "linkedhashmap":
 			us = []Universe{&mapUniverse{kind: k, nk: pick(3, 4), ctr: ctr}}
 		case "treebidimap":
@@ -391,6 +410,25 @@ func jobEnum(j *jobCtx) {
 		for _, u := range us {
 			x0 := u.New()
 			paths := enumStates(u, pick(60, 600), isMut(x0))
+			// one large state per universe (40 elements): chunked or cached implementations only differ there
+			var big []Call
+			switch x0.(type) {
+			case *seqInst:
+				for i := 0; i < 40; i++ {
+					big = append(big, Call{Op: "Add", Vs: []int{(i * 7) % 11}})
+				}
+			case *setInst:
+				big = append(big, Call{Op: "Add", Vs: rangeInts(40, 0)})
+			case *mapInst:
+				if !mapBidi(k) {
+					for i := 0; i < 40; i++ {
+						big = append(big, Call{Op: "Put", I: (i * 13) % 40, V: i % 5})
+					}
+				}
+			}
+			if big != nil {
+				paths = append(paths, big)
+			}
 			for _, p := range paths {
 				if budgetExceeded() {
 					extraStats["tour_truncated"] = true
